@@ -1,5 +1,6 @@
 import SemverProofs.Props.C03
 import SemverProofs.Props.C02b
+import SemverProofs.Lemmas.Closed
 /-!
 # C03 at the level of texts: "some comparator was *written* with a prerelease tag"
 
@@ -450,5 +451,24 @@ theorem C03_text_decided (r : Ast) (s : List Char) (hs : AstText r s) (R : Range
 /-! non-vacuity: `>=1.2.3-alpha <2` opts `1.2.3-beta` in -/
 example : simpleTagFor (.prim .ge (.full 1 2 3 [.alpha ['a']] [])) ⟨1, 2, 3, [.alpha ['b']], []⟩ :=
   ⟨_, rfl, by simp [npTagFor]⟩
+
+/-- the same on the wider class of texts (any closed unrecognised token is garbage) -/
+theorem C03_text_closed (r : Ast) (s : List Char) (hs : AstTextG ClosedGarbage r s) (R : Range)
+    (hp : Range.parse s = .ok R) (v : Version) (hv : v.isPre = true) (hsat : Range.satisfies R v = true) :
+    ∃ a ∈ r, (∃ x ∈ evalAlt a, x.within v = true) ∧ altTagFor a v := by
+  rw [parse_textG closedGarbage_ok hs] at hp
+  split at hp
+  · cases hp
+  · cases hp
+    rw [Range.satisfies_iff] at hsat
+    obtain ⟨x, hx, hsx⟩ := hsat
+    simp only [evalAst, List.mem_flatMap] at hx
+    obtain ⟨a, ha, hxa⟩ := hx
+    have h := (satisfies_iff x v).mp hsx
+    have hg : x.gate v = true := by
+      rcases h.2 with h2 | h2
+      · rw [hv] at h2; cases h2
+      · exact h2
+    exact ⟨a, ha, ⟨x, hxa, h.1⟩, C03_tree a x hxa v hv h.1 hg⟩
 
 end Semver.C03
